@@ -617,6 +617,14 @@ class Driver:
             if not prev:
                 return None, None
             rec = prev[st["retransmit_of"] % len(prev)]
+            if st.get("acks"):
+                # a retransmission is a new datagram: whatever is waiting to be acknowledged rides on it, not what
+                # rode on the first copy
+                acks = endpoint.pick_acks(flow, st["acks"], reack=st.get("reack", False))
+                if acks:
+                    self.res.probe("retransmission_carrying_fresh_acks")
+                    return L.build_datagram(rec["flags"] | L.RESENT, rec["pid"], rec.get("extra_len", 0), rec["body"],
+                                            acks), rec["pid"]
             return rec["datagram_resent"], rec["pid"]
         rng = random.Random(st.get("mseed", 0))
         extra = bytes.fromhex(st.get("extra", ""))
@@ -634,6 +642,9 @@ class Driver:
         if name in ("ChatFromViewer", "ChatFromSimulator") and extra:
             nl = L.msgnum_len(body)
             body = body[:nl] + extra + body[nl:]
+        if st.get("pid_jump"):
+            endpoint.next_pid[flow] = endpoint.next_pid.get(flow, 1) + st["pid_jump"]
+            self.res.probe("packet_id_counter_leapt")
         pid = endpoint.alloc_pid(flow)
         nacks = st.get("acks", 0)
         acks = endpoint.pick_acks(flow, nacks, reack=st.get("reack", False)) if nacks else []
@@ -648,7 +659,7 @@ class Driver:
                 if st["corrupt"]["kind"] == "zero_bomb" and st["corrupt"]["k"] >= 49:
                     self.res.probe("zero_expansion_over_codec_limit")
         endpoint.sent.setdefault(flow, []).append({
-            "pid": pid, "flags": flags, "body": body, "acks": acks, "name": name,
+            "pid": pid, "flags": flags, "body": body, "acks": acks, "name": name, "extra_len": len(extra),
             "datagram_resent": L.build_datagram(flags | L.RESENT, pid, len(extra), body, ()),
         })
         return dg, pid
